@@ -443,6 +443,15 @@ FINDINGS = _build() + [
          pattern=dict(check="chain_hop", last_hop="docstring", dot_in_default=True, field={"in": ["parse", "default"]}, observed={"in": ["raises SyntaxError", "str"]}),
          what="[R-default-cut-at-dot] docstring hop of a string default containing a full stop ('a.b'): value cut at the dot or SyntaxError - as C01-string-default-cut-at-full-stop",
          site="cdd/shared/defaults_utils.py:extract_default", example="{'alpha': {'typ': 'str', 'default': 'a.b'}} -> docstring hop"),
+    dict(id="C03-function-hop-with-default-prose-none-default-loses-code-quotes", property="C03",
+         pattern=dict(check="chain_hop", last_hop="function_edd", from_initial=True, default_kind="None", typ_class="Optional", field={"in": ["default", "typ"]}, observed={"in": ["str", "optional_base_changed_to_str"]}),
+         what="[R-docstring-none-default] a function written with 'Defaults to ```(None)```' in its docstring (emit_default_doc=True, what `gen` does): the docstring's default wins over the signature's and comes back "
+              "as the string '(None)' (and Optional[int] as Optional[str]) - the per-format finding of C01/C02 on a function hop",
+         site="cdd/shared/defaults_utils.py:extract_default (strips the code quotes) / cdd/shared/parse/utils/parser_utils.py:merge_present_params", example="{'alpha': {'typ': 'Optional[int]', 'default': NoneStr}} -> function hop with emit_default_doc=True"),
+    dict(id="C03-function-hop-with-default-prose-int-default-narrows-declared-float", property="C03",
+         pattern=dict(check="chain_hop", last_hop="function_edd", from_initial=True, entry="param", field="typ", default_kind="int", typ_class="float", observed="changed_to_int"),
+         what="the same function hop of a parameter declared float whose default is written as an int: the type comes back int - as C02-int-default-narrows-declared-float",
+         site="cdd/shared/ast_utils.py:infer_type_and_default / cdd/shared/docstring_parsers.py:_infer_default", example="{'alpha': {'typ': 'float', 'default': 2}} -> function hop with emit_default_doc=True"),
 ]
 FIXED = [
     'fixed: property=C03 fc46805 docstring hop of a string default containing a full stop: value cut at the dot or SyntaxError',
